@@ -122,6 +122,7 @@ def run(repo, rep, tier):
     # a statement-free attribute with a prefix stays as written only if the
     # prefix means what the enclosing elements declared: declarations of an
     # empty element end with it (C18 owns the namespace-stack rules)
+    _pi_target(repo, rep)
     from . import c18, c07
     L.borrow(repo, rep, "R03.3", "C18", c18._nsstack, ("empty-tag",))
     # the CR/CRLF rewrite is decided by the content type of THIS body
@@ -748,6 +749,35 @@ def unquoted_class_agrees(repo):
     missing = tset - pset
     return not missing, "tokenizer admits %s, parser consumes %s%s" % (
         tset, pset, ", not: %s" % missing if missing else "")
+
+
+def _pi_target(repo, rep):
+    """A processing instruction is a code block only if its target IS
+    'python': the pattern's name group takes the whole target -- every name
+    character of XML ('-', '.', ':' besides letters, digits and '_') -- so
+    that <?python-config ...?> or <?python.x?> are reproduced as written."""
+    from .. import rx
+    import re as _re
+    C = rx.C
+    rc = repo.const("chameleon.parser", "match_processing_instruction")
+    pat = rc.pattern if isinstance(rc.pattern, str) else \
+        rc.pattern.decode("latin-1")
+    gi = _re.compile(pat, rc.flags).groupindex
+    loc = rx.locate_group(rx.parse(pat, rc.flags), gi.get("name"))
+    if loc is None:
+        raise AnalysisError("match_processing_instruction: no name group")
+    body = list(loc[0])
+    ok = len(body) == 1 and body[0][0] is C.MAX_REPEAT and \
+        body[0][1][0] >= 1 and body[0][1][1] >= 65535
+    cs = rx.all_chars(body)
+    need = rx.CharSet.of("abcxyzABCXYZ0189_-.:")
+    missing = need - cs
+    rep.check(ok and not missing, "R03.3",
+              "chameleon.parser.match_processing_instruction",
+              "the name of a processing instruction is its whole target "
+              "(greedy, all XML name characters): only the target 'python' "
+              "itself is a code block", construct="pi-target-whole",
+              detail="name characters not admitted: %s" % (missing,))
 
 
 def _eq_grammar(repo, rep):
